@@ -15,7 +15,7 @@ Rec == ndJsonDeserialize(IOEnv.TRACE)
 VARIABLES tl, tst
 tvars == <<tl, tst>>
 
-Idle == [kind |-> "-", ver |-> 0, to |-> 0, ph |-> "idle", wlen |-> 0, wtok |-> "-", seen |-> {}, shape |-> << >>]
+Idle == [kind |-> "-", ver |-> 0, to |-> 0, ph |-> "idle", wlen |-> 0, wtok |-> "-", seen |-> {}, apiok |-> FALSE, seenapi |-> {}, shape |-> << >>]
 
 \* ---- replay of the walker's chunk list through the frame machine (strict fold) ---------------
 \* accumulator: [fs, bad] ; bad = index of the first chunk the frame machine cannot place (0 = none)
@@ -78,7 +78,9 @@ SecWhy(e, st) ==
 Expected(st) == CASE st.kind = "root"  -> RootSections
                   [] st.kind = "group" -> GroupSections
                   [] OTHER -> Owed(st)
-EndWhy(st) == IF st.ph \in {"parsed", "rewritten", "converted"} /\ ~(Expected(st) \subseteq st.seen) THEN "sections_missing" ELSE ""
+ExpectedApi(st) == IF st.kind = "root" THEN RootApiSections ELSE GroupApiSections
+EndWhy(st) == IF st.ph \in {"parsed", "rewritten", "converted"} /\ ~(Expected(st) \subseteq st.seen) THEN "sections_missing"
+              ELSE IF st.apiok /\ ~(ExpectedApi(st) \subseteq st.seenapi) THEN "api_sections_missing" ELSE ""
 
 Why(e, st) ==
     CASE e.ev = "Reset"   -> ""
@@ -107,8 +109,10 @@ Drift(e, st) ==
 StepState(e, st) ==
     CASE e.ev = "Reset"   -> [Idle EXCEPT !.kind = e.kind, !.ver = e.ver, !.to = e.to, !.ph = "reset", !.shape = e.shape]
       [] e.ev = "Write"   -> [st EXCEPT !.ph = IF IsOk(e.res) THEN "written" ELSE "ended", !.wlen = e.len, !.wtok = e.tok]
-      [] e.ev = "Parse"   -> [st EXCEPT !.ph = IF e.api = "legacy" /\ IsOk(e.res) THEN "parsed" ELSE st.ph]
-      [] e.ev = "Sec"     -> [st EXCEPT !.seen = IF e.phase = "api" THEN st.seen ELSE st.seen \cup {e.name}]
+      [] e.ev = "Parse"   -> [st EXCEPT !.ph = IF e.api = "legacy" /\ IsOk(e.res) THEN "parsed" ELSE st.ph,
+                                        !.apiok = IF e.api = "binrw" THEN IsOk(e.res) ELSE st.apiok]
+      [] e.ev = "Sec"     -> [st EXCEPT !.seen = IF e.phase = "api" THEN st.seen ELSE st.seen \cup {e.name},
+                                        !.seenapi = IF e.phase = "api" THEN st.seenapi \cup {e.name} ELSE st.seenapi]
       [] e.ev = "Rewrite" -> [st EXCEPT !.ph = "rewritten"]
       [] e.ev = "Convert" -> [st EXCEPT !.ph = IF IsOk(e.res) THEN "converted" ELSE "ended"]
       [] e.ev = "End"     -> [st EXCEPT !.ph = "idle"]
